@@ -15,11 +15,11 @@
 EXTENDS Integers, Sequences, FiniteSets, TLC, Json
 
 Log == ndJsonDeserialize("trace.ndjson")
-VARIABLES l, cfg, pos, lastFb, extLast, nextFirst, dropSeen, dead
-vars == <<l, cfg, pos, lastFb, extLast, nextFirst, dropSeen, dead>>
+VARIABLES l, cfg, pos, lastFb, extLast, nextFirst, dropSeen, dead, lastj
+vars == <<l, cfg, pos, lastFb, extLast, nextFirst, dropSeen, dead, lastj>>
 Report(line, preds, sc) == \A p \in preds : PrintT(<<"VIOL", line, p, sc>>)
 Iff(b, s) == IF b THEN {s} ELSE {}
-Init == l = 1 /\ cfg = [scen |-> 0] /\ pos = 0 /\ lastFb = <<>> /\ extLast = FALSE /\ nextFirst = 0 /\ dropSeen = FALSE /\ dead = FALSE
+Init == l = 1 /\ cfg = [scen |-> 0] /\ pos = 0 /\ lastFb = <<>> /\ extLast = FALSE /\ nextFirst = 0 /\ dropSeen = FALSE /\ dead = FALSE /\ lastj = 0
 
 NW == cfg.cols * cfg.rows
 ErrCh(r, c) == 2 * (c * cfg.rows + r) + 1          \* 1-based index into data
@@ -67,6 +67,18 @@ ExtFrom(e, j, acc) == IF j > e.n * cfg.rows THEN acc
                       ELSE ExtFrom(e, j + 1, IF CellFlag(j) /\ ~PrevFlag(j)
                                              THEN Append(acc, ((e.first + ((j - 1) \div cfg.rows)) * cfg.rows) + ((j - 1) % cfg.rows)) ELSE acc)
 
+\* Under a loss the property asks for re-alignment, not for the output of a perfect reader: whatever is emitted must be
+\* physical frames that reached the reader whole, each at most once and in order (how many frames around the loss are
+\* given up is not prescribed).  Slots are identified by their error words (not delayed, not mixed): slot i of block e
+\* is the first intact frame after the previously matched one whose error words equal the slot's; -1 if there is none.
+SlotErr(e, i) == [q \in 1..NW |-> e.data[ErrCh((q - 1) \div cfg.cols, (q - 1) % cfg.cols)][i]]
+NextIntact(v, j) == LET S == {k \in (j + 1)..Len(cfg.intact) : [q \in 1..NW |-> U16(cfg.intact[k][q])] = v} IN
+                    IF S = {} THEN 0 ELSE CHOOSE k \in S : \A k2 \in S : k <= k2
+RECURSIVE Walk(_, _, _)
+Walk(e, i, j) == IF i > e.n THEN j ELSE LET k == NextIntact(SlotErr(e, i), j) IN IF k = 0 THEN 0 - 1 ELSE Walk(e, i + 1, k)
+WellShaped(e) == Len(e.data) = 2 * NW /\ \A ch \in 1..Len(e.data) : Len(e.data[ch]) = e.n
+Realigned(e) == IF lastj < 0 \/ ~WellShaped(e) THEN lastj ELSE Walk(e, 1, lastj)
+
 BlockPreds(e) ==
   LET shape == Len(e.data) = 2 * NW /\ \A ch \in 1..Len(e.data) : Len(e.data[ch]) = e.n
       inRange == pos + e.n <= Len(cfg.whole)
@@ -77,6 +89,7 @@ BlockPreds(e) ==
      \cup Iff(shape /\ inRange /\ ~ErrAllOK(e), "C04_once_in_order")
      \cup Iff(shape /\ inRange /\ ErrAllOK(e) /\ ~((old /\ FbAllOK(e, FALSE)) \/ (new /\ FbAllOK(e, TRUE))), "C04_retard_mix")
      \cup Iff(shape /\ inRange /\ ErrAllOK(e) /\ e.ext # ExtFrom(e, 1, <<>>), "C04_ext")
+     \cup Iff(lastj >= 0 /\ WellShaped(e) /\ Realigned(e) < 0, "C04_realigned")
      \cup Iff(e.first < nextFirst, "C04_monotone")
      \cup Iff(~cfg.gap /\ (e.first # nextFirst \/ e.dropped # 0), "C04_contiguous")
 
@@ -86,7 +99,7 @@ Step ==
   /\ LET e == Log[l] IN
      CASE e.ev = "Config" ->
             /\ cfg' = e /\ pos' = 0 /\ lastFb' = [q \in 1..(e.cols * e.rows) |-> 0] /\ extLast' = FALSE
-            /\ nextFirst' = 0 /\ dropSeen' = FALSE /\ dead' = FALSE
+            /\ nextFirst' = 0 /\ dropSeen' = FALSE /\ dead' = FALSE /\ lastj' = 0
        [] e.ev = "Block" ->
             /\ IF dead THEN TRUE ELSE Report(l, BlockPreds(e), cfg.scen)
             /\ LET ok == ~dead /\ Len(e.data) = 2 * NW /\ pos + e.n <= Len(cfg.whole) /\ e.n > 0 IN
@@ -95,15 +108,16 @@ Step ==
                /\ dead' = (dead \/ ~ok)        \* after a malformed block the reference position is unknown: stop judging contents
             /\ pos' = pos + e.n /\ nextFirst' = e.first + e.n
             /\ dropSeen' = (dropSeen \/ e.dropped > 0)
+            /\ lastj' = Realigned(e)
             /\ UNCHANGED cfg
        [] e.ev = "Panic" ->
             /\ Report(l, {"C04_nocrash"}, cfg.scen) /\ dead' = TRUE
-            /\ UNCHANGED <<cfg, pos, lastFb, extLast, nextFirst, dropSeen>>
+            /\ UNCHANGED <<cfg, pos, lastFb, extLast, nextFirst, dropSeen, lastj>>
        [] e.ev = "End" ->
             /\ IF dead THEN TRUE ELSE
                Report(l, Iff(pos < Len(cfg.whole) - 4, "C04_complete")
                          \cup Iff(cfg.gap /\ pos > cfg.beforegap + 1 /\ ~dropSeen, "C04_loss_reported"), cfg.scen)
-            /\ UNCHANGED <<cfg, pos, lastFb, extLast, nextFirst, dropSeen, dead>>
+            /\ UNCHANGED <<cfg, pos, lastFb, extLast, nextFirst, dropSeen, dead, lastj>>
 Next == Step
 Spec == Init /\ [][Next]_vars
 NScen == Cardinality({i \in 1..Len(Log) : Log[i].ev = "Config"})
